@@ -150,8 +150,9 @@ def scan_imports(root, out_pkg, core_pkg):
                 elif isinstance(node, ast.ImportFrom):
                     if node.level:
                         parts = cur_pkg.split(".")
-                        if node.level - 1 > len(parts):
-                            bad.append((rel, "." * node.level + (node.module or ""), "relative import leaves the project"))
+                        if node.level > len(parts):
+                            # Python refuses this at import time: "attempted relative import beyond top-level package"
+                            bad.append((rel, "." * node.level + (node.module or ""), "relative import climbs out of the top-level package"))
                             continue
                         base = parts[: len(parts) - (node.level - 1)]
                         targets = [".".join(base + ([node.module] if node.module else []))]
